@@ -189,6 +189,7 @@ def encode(t, m=None):
     if isinstance(t, NpScalar): return {"np": encode(t.value, m)}
     if isinstance(t, _dtm.timedelta): return {"td": t // _dtm.timedelta(microseconds=1)} if not CANON[0] else {"m": t // _dtm.timedelta(microseconds=1), "u": "us"}
     if type(t).__name__ in ("ReResult",): return UF_WILDCARD
+    if type(t).__name__ == "SymWidth": return _i_val(m, t.e)
     if type(t).__name__ == "SymPyDate": return encode(SymDT(t.ticks, t.unit), m)
     if isinstance(t, Raised): return {"exc": t.type, "msg": t.msg}
     if isinstance(t, Opaque): return {"opaque": t.tag}
